@@ -99,3 +99,12 @@ package store
 //@   modifies *
 //@   ensures [C08] delete_id_recorded: err == nil && delID > 0 ==> called("TopicUpdate") == old(called("TopicUpdate")) + 1 && called("SubsUpdate") == old(called("SubsUpdate")) + 1
 //@   assert at call TopicUpdate [C08] same_topic: $1 == topic
+
+// C16: every URL listed with a message, a topic or an account is looked up so that it can be linked (the adapters keep
+// one link per topic or user - that rule is theirs, applied to uploads that exist, not to the raw list).
+//@ func (m fileMapper) LinkAttachments(topic string, msgId types.Uid, attachments []string) (err error)
+//@   requires [C16] mediaHandler != nil
+//@   modifies *
+//@   ensures [C16] every_listed_url_examined: idLookups == old(idLookups) + old(len(attachments))
+//@   loop 1
+//@     invariant [C16] one_lookup_per_url: idLookups == old(idLookups) + #idx && 0 <= #idx && #idx <= len(attachments) && len(attachments) == old(len(attachments))
